@@ -270,7 +270,7 @@ func (w *World) Tracef(format string, a ...interface{}) {
 // yield is the pre-emption hook: with the run's probability (or as the tape
 // says when replaying) the caller moves behind every other runnable goroutine.
 func (w *World) yield(site string) {
-	if os.Getenv("VERIF_YTRACE") == "sites" {
+	if yTraceMode == "sites" {
 		YTrace = append(YTrace, fmt.Sprintf("%s g%d t=%v", site, sim.Goid(), time.Since(w.T0)))
 	}
 	if w.YieldP <= 0 {
@@ -292,7 +292,7 @@ func (w *World) yield(site string) {
 			w.Tape = append(w.Tape, 0)
 		}
 	}
-	if v := os.Getenv("VERIF_YTRACE"); v == "all" || (w.TraceOn && v != "") {
+	if v := yTraceMode; v == "all" || (w.TraceOn && v != "") {
 		YTrace = append(YTrace, fmt.Sprintf("%s %v g%d", site, y, sim.Goid()))
 	}
 	if y {
@@ -303,6 +303,9 @@ func (w *World) yield(site string) {
 
 // YTrace: debugging aid (VERIF_YTRACE): the schedule points of the traced run, in order.
 var YTrace []string
+
+// yTraceMode is VERIF_YTRACE, read once (the hook runs at every schedule point).
+var yTraceMode = os.Getenv("VERIF_YTRACE")
 
 // AddLink registers a new in-memory NIC.
 func (w *World) AddLink(name string, mtu uint32, caps stack.LinkEndpointCapabilities, addr tcpip.LinkAddress, peer int) *Link {
